@@ -414,7 +414,7 @@ BULK = ("L2.rec2", "L2.rec3", "L2.inherit")      # the quadratic strata of nesti
 def qualifiers_for(stratum, T, thorough):
     """which from_bits qualifiers the run-time wrapper is built with"""
     if thorough:
-        return ("value", "signal", "temporary", "ref") if L.width(T) <= 7 else ("value", "signal")
+        return ("value", "signal", "temporary", "ref", "variable") if L.width(T) <= 7 else ("value", "signal")
     if stratum in BULK:
         return ("value",)
     return ("value", "signal")
@@ -425,7 +425,40 @@ def ct_for(stratum, T, thorough):
     return thorough or stratum not in BULK
 
 
+# ----------------------------------------------------------------------------------------------
+# CPython >= 3.11 keeps interpreter frames on a per-thread "data stack" made of 16 KiB chunks; a chunk is
+# mmap'ed when a call does not fit and munmap'ed when its first frame returns.  cohdl's recursive AST
+# interpreter oscillates across chunk boundaries all the time (thousands of mmap/munmap per compile; >90 % of
+# the run time on this machine).  Running the work below one frame with ~140k (unused) local slots makes CPython
+# allocate a single 2 MiB chunk for that frame; all nested frames then live in its free tail.  Pure
+# speed-up, no semantic effect; if the tail is exhausted CPython falls back to normal chunks.
+_BIG = None
+
+
+def _tpl(f, *a):
+    return f(*a)
+
+
+def deep_stack():
+    global _BIG
+    if _BIG is None:
+        import types
+
+        c = _tpl.__code__
+        try:
+            names = c.co_varnames + tuple(f"_pad{i}" for i in range(140000))
+            _BIG = types.FunctionType(c.replace(co_varnames=names, co_nlocals=len(names)), globals())
+            _BIG(int)
+        except Exception:       # other interpreter versions: just run plainly
+            _BIG = _tpl
+    return _BIG
+
+
 def work(task):
+    return deep_stack()(_work, task)
+
+
+def _work(task):
     types, thorough, do_ct = task
     import io
     import contextlib
@@ -441,8 +474,9 @@ def work(task):
 
 # ----------------------------------------------------------------------------------------------
 def main(run: Run):
+    deep_stack()      # built once, inherited by the forked workers
     fam = G.family(run.thorough)
-    qualifiers = ("value", "signal", "temporary", "ref") if run.thorough else ("value", "signal")
+    qualifiers = ("value", "signal", "temporary", "ref", "variable") if run.thorough else ("value", "signal")
     only = getattr(run, "only", None)
     if only:                                   # debug: --only L1.rec2,L2.sarr
         fam = [st for st in fam if st[0] in only]
@@ -526,9 +560,9 @@ def main(run: Run):
 def replay(run: Run, data):
     T = to_tuple(data["abstract_type"])
     sub = data.get("subcheck")
-    qualifiers = ("value", "temporary", "signal", "ref") if sub and sub.startswith("rt.") and \
-        sub.split(".")[1] in ("temporary", "ref") else ("value", "signal")
-    status, stats, viols = check_type(T, qualifiers, True)
+    qualifiers = ("value", "signal", "temporary", "ref", "variable") if sub and sub.startswith("rt.") and \
+        sub.split(".")[1] in ("temporary", "ref", "variable") else ("value", "signal")
+    status, stats, viols = deep_stack()(check_type, T, qualifiers, True)
     for v in viols:
         if v["key"] == data["key"]:
             print("reproduced:", v["what"])
